@@ -406,3 +406,33 @@ for _kind, _seg in (("block", 16), ("stream", 1), ("segment", 1), ("segment", 8)
     proof("C16/BlockFeeder.feed[%s%s]" % (_kind, "-%d" % _seg if _kind == "segment" else ""),
           functions=[(FEED, "BlockFeeder.feed"), (FEED, "BlockFeeder.__init__"),
                      (FEED, "_%s_can_consume" % _kind)], family=fam_feed(_kind, _seg))(_p)
+
+
+# ---------------------------------------------------------------------------------------
+# CTR without an explicit counter: every mode object gets its OWN counter starting at 1 ("results never depend on
+# earlier calls on the same or another object")
+
+@proof("C16/CTR.default-counter", functions=[(MOD, "AESModeOfOperationCTR.__init__"), (MOD, "Counter.__init__")],
+       family=lambda seed, tier: [dict(key=bytes(range(16)), p=bytes(range(16, 32)), q=bytes(range(40, 56)))])
+def ctr_default_counter(vc):
+    M = vc.module(MOD)
+    stub_block(vc, M)
+    key = sym_bytes(vc, "key", 16)
+    p = sym_bytes(vc, "p", 16)
+    q = sym_bytes(vc, "q", 16)
+    one = [0] * 15 + [1]
+    two = [0] * 15 + [2]
+    m1 = M.AESModeOfOperationCTR(as_bytes(vc, key))
+    vc.prove("default-counter-starts-at-1", list(m1._counter.value) == one)
+    o1 = m1.encrypt(as_bytes(vc, p))
+    vc.prove("first-object.first-block", bytes_eq(vc, o1, _xor(vc, p, E(vc, key, one))))
+    m2 = M.AESModeOfOperationCTR(as_bytes(vc, key))
+    m3 = M.AESModeOfOperationCTR(as_bytes(vc, key), None)
+    vc.prove("each-object-has-its-own-counter", m2._counter is not m1._counter and m3._counter is not m1._counter
+             and m3._counter is not m2._counter)
+    vc.prove("second-object-starts-at-1-again", list(m2._counter.value) == one and list(m3._counter.value) == one)
+    o2 = m2.encrypt(as_bytes(vc, q))
+    vc.prove("second-object.first-block-independent-of-the-first-object", bytes_eq(vc, o2, _xor(vc, q, E(vc, key, one))))
+    o1b = m1.encrypt(as_bytes(vc, q))
+    vc.prove("interleaved.first-object-continues-at-2", bytes_eq(vc, o1b, _xor(vc, q, E(vc, key, two))))
+    vc.cover("default-counter")
